@@ -2129,7 +2129,7 @@ def drv_schedules(tier, seed):
         pops = [('flat', sel_pops[size])] if quick else [('flat', sel_pops[5]), ('flat', sel_pops[8])]
       elif dna:
         k = int(okind[4:])
-        names = [dna_spaces[(ci + li) % len(dna_spaces)]] if quick else dna_spaces
+        names = [dna_spaces[(ci + li + j) % len(dna_spaces)] for j in range(1 if quick else 2)]
         if 'Order(' in tmpl:
           names = ['perm']
         pops = [(nm, dna_pops[nm][:k]) for nm in names]
